@@ -44,6 +44,9 @@ fn main() {
     let mut nshards: u64 = 64;
     let mut only_shard: Option<u64> = None;
     let mut skip_self_test = false;
+    let mut dump_sample: Option<usize> = None;
+    let mut dump_max_bytes: usize = 1500;
+    let mut replay_list: Option<String> = None;
     let mut i = 2;
     while i < args.len() {
         let v = args.get(i + 1).cloned().unwrap_or_default();
@@ -56,6 +59,9 @@ fn main() {
             "--replay" => replay = Some(v),
             "--shards" => nshards = v.parse().unwrap_or(64),
             "--only-shard" => only_shard = v.parse().ok(),
+            "--dump-sample" => dump_sample = v.parse().ok(),
+            "--dump-max-bytes" => dump_max_bytes = v.parse().unwrap_or(1500),
+            "--replay-list" => replay_list = Some(v),
             "--skip-self-test" => {
                 // the model self-tests already ran natively in the same check (they are slow under Miri)
                 skip_self_test = true;
@@ -100,6 +106,67 @@ fn main() {
         let mut c = Ctx::new(m.id, tier, seed, 0, 1, m.exec);
         c.run(case);
         result = c.to_json(start.elapsed().as_secs_f64(), m.rule, &[]);
+    } else if let Some(path) = replay_list {
+        // sanitizer stages: execute the cases of a sampled list (written by --dump-sample); with
+        // --shards N --only-shard I only the cases whose position is I modulo N
+        let text = std::fs::read_to_string(&path).expect("replay list");
+        let v: serde_json::Value = serde_json::from_str(&text).expect("replay list json");
+        let n = if only_shard.is_some() { nshards } else { 1 };
+        let me = only_shard.unwrap_or(0);
+        let mut c = Ctx::new(m.id, tier, seed, me, n, m.exec);
+        if let Some(t) = &trace {
+            c.trace = std::fs::OpenOptions::new().create(true).write(true).truncate(true).open(t).ok();
+        }
+        for (k, cv) in v.get("cases").and_then(|x| x.as_array()).expect("cases").iter().enumerate() {
+            if k as u64 % n == me {
+                c.run(Case::from_json(cv).expect("case"));
+            }
+        }
+        result = c.to_json(start.elapsed().as_secs_f64(), m.rule, &[]);
+    } else if let Some(total_per_mon) = dump_sample {
+        // generate the whole workload of this tier without executing it; keep a uniform sample per
+        // sub-monitor (reservoir per shard, then a deterministic thinning of the union)
+        let per_shard = (total_per_mon + nshards as usize - 1) / nshards as usize + 1;
+        let all = Mutex::new((0u64, std::collections::BTreeMap::<String, Vec<(u64, Case)>>::new(), std::collections::BTreeMap::<String, u64>::new()));
+        let next = AtomicU64::new(0);
+        std::thread::scope(|s| {
+            for _ in 0..threads {
+                s.spawn(|| loop {
+                    let shard = next.fetch_add(1, Ordering::SeqCst);
+                    if shard >= nshards {
+                        break;
+                    }
+                    let mut c = Ctx::new(m.id, tier, seed, shard, nshards, m.exec);
+                    c.dump = Some(ctx::Dump::new(per_shard, dump_max_bytes, rng::Rng::for_case(seed, m.id, "dump", shard, 0)));
+                    (m.generate)(&mut c);
+                    let d = c.dump.take().unwrap();
+                    let mut g = all.lock().unwrap();
+                    g.0 += c.evals;
+                    for (k, n) in d.seen {
+                        *g.2.entry(k).or_insert(0) += n;
+                    }
+                    for (k, cases) in d.kept {
+                        let e = g.1.entry(k).or_default();
+                        for case in cases {
+                            let key = rng::mix(case.fingerprint() ^ rng::mix(seed));
+                            e.push((key, case));
+                        }
+                    }
+                });
+            }
+        });
+        let (generated, kept, seen) = all.into_inner().unwrap();
+        let mut cases = Vec::new();
+        let mut per = serde_json::Map::new();
+        for (k, mut v) in kept {
+            v.sort_by_key(|x| x.0);
+            v.truncate(total_per_mon);
+            per.insert(k.clone(), serde_json::json!({"eligible": seen.get(&k).copied().unwrap_or(0), "sampled": v.len()}));
+            cases.extend(v.into_iter().map(|x| (x.0, x.1)));
+        }
+        // interleave the sub-monitors so that every shard of the replay sees all of them
+        cases.sort_by_key(|x| x.0);
+        result = serde_json::json!({"generated": generated, "per_sub_monitor": per, "cases": cases.iter().map(|x| x.1.to_json()).collect::<Vec<_>>()});
     } else {
         let total = Mutex::new(Ctx::new(m.id, tier, seed, 0, nshards, m.exec));
         let next = AtomicU64::new(0);
